@@ -202,6 +202,21 @@ pub broadcast proof fn axiom_sqrt(x: real)
 pub broadcast proof fn axiom_sin_cos(x: real)
     ensures #[trigger] sin_r(x) * sin_r(x) + #[trigger] cos_r(x) * cos_r(x) == 1real {}
 #[verifier::external_body]
+pub proof fn axiom_cos_add(a: real, b: real)
+    ensures cos_r(a + b) == cos_r(a) * cos_r(b) - sin_r(a) * sin_r(b) {}
+#[verifier::external_body]
+pub proof fn axiom_sin_add(a: real, b: real)
+    ensures sin_r(a + b) == sin_r(a) * cos_r(b) + cos_r(a) * sin_r(b) {}
+#[verifier::external_body]
+pub proof fn axiom_tan(a: real)
+    ensures tan_r(a) * cos_r(a) == sin_r(a) {}
+pub proof fn lemma_sqrt_one() ensures sqrt_r(1real) == 1real {
+    axiom_sqrt(1real);
+    let s = sqrt_r(1real);
+    assert((s - 1real) * (s + 1real) == s * s - 1real);
+    assert(s + 1real > 0real);
+}
+#[verifier::external_body]
 pub proof fn axiom_eps() ensures eps_r() > 0real, eps_r() < 1real {}
 #[verifier::external_body]
 pub proof fn axiom_pi() ensures pi_r() > 3real, pi_r() < 4real {}
